@@ -5,12 +5,15 @@
 #include <string.h>
 
 typedef int (*cb_t)(int, int);
+/* resolved from the running interpreter when the library is loaded */
+extern int PyGILState_Ensure(void);
+extern void PyGILState_Release(int);
 
 struct fth {
     pthread_t th;
     pthread_mutex_t m;
     pthread_cond_t c;
-    int cmd;            /* 0 none, 1 call, 2 exit */
+    int cmd;            /* 0 none, 1 call, 2 exit, 3 call with the GIL held by the thread's own code */
     int busy;
     cb_t fn;
     int a, b, result;
@@ -34,7 +37,14 @@ static void *fth_main(void *p)
         pthread_mutex_unlock(&f->m);
         if (cmd == 2)
             return NULL;
-        f->result = f->fn(f->a, f->b);
+        if (cmd == 3) {
+            /* the thread's own C code holds the GIL around the callback */
+            int st = PyGILState_Ensure();
+            f->result = f->fn(f->a, f->b);
+            PyGILState_Release(st);
+        }
+        else
+            f->result = f->fn(f->a, f->b);
         pthread_mutex_lock(&f->m);
         f->cmd = 0;
         f->busy = 0;
@@ -63,6 +73,18 @@ void drv_call_async(int id, void *fn, int a, int b)
         pthread_cond_wait(&f->c, &f->m);
     f->fn = (cb_t)fn; f->a = a; f->b = b;
     f->busy = 1; f->cmd = 1;
+    pthread_cond_broadcast(&f->c);
+    pthread_mutex_unlock(&f->m);
+}
+
+void drv_call_gil_async(int id, void *fn, int a, int b)
+{
+    struct fth *f = &F[id];
+    pthread_mutex_lock(&f->m);
+    while (f->busy)
+        pthread_cond_wait(&f->c, &f->m);
+    f->fn = (cb_t)fn; f->a = a; f->b = b;
+    f->busy = 1; f->cmd = 3;
     pthread_cond_broadcast(&f->c);
     pthread_mutex_unlock(&f->m);
 }
